@@ -105,8 +105,15 @@ theorem c_sendQueued (b : SState) (s : Sess) : sendQueued (s.setSt b) = (sendQue
   unfold sendQueued; reads
   by_cases hp : s.out = true <;> simp only [hp, ↓reduceIte] <;> rfl
 
+theorem stamp_setSt (b : SState) (s : Sess) (m : OutMsg) : stamp (s.setSt b) m = stamp s m := rfl
+theorem gapFillR_setSt (b : SState) (s : Sess) (x y : Int) : gapFillR (s.setSt b) x y = gapFillR s x y := rfl
+theorem replyLastOf_setSt (b : SState) (s : Sess) (m : InMsg) : replyLastOf (s.setSt b) m = replyLastOf s m := rfl
+
 theorem c_prep (b : SState) (s : Sess) (m : OutMsg) : prep (s.setSt b) m = ((prep s m).1, (prep s m).2.setSt b) := by
   unfold prep
+  rw [stamp_setSt]
+  generalize stamp s m = m
+  unfold prepCore
   reads
   split
   · split <;> simp only [c_persistOut]
@@ -127,7 +134,7 @@ theorem c_sendInReplyTo (b : SState) (s : Sess) (m : OutMsg) (h : Same b s) :
   have : (s.setSt b).st.loggedOn = s.st.loggedOn := h.lo
   rw [this]
   split
-  · exact c_queueForSend b s m
+  · exact c_queueForSend b s _
   · rw [c_prep]
     generalize prep s m = r
     obtain ⟨o, s'⟩ := r
@@ -158,6 +165,12 @@ theorem c_dropAndReset (b : SState) (s : Sess) : dropAndReset (s.setSt b) = (dro
 theorem c_sendLogonInReplyTo (b : SState) (s : Sess) (r : Bool) :
     sendLogonInReplyTo (s.setSt b) r = (sendLogonInReplyTo s r).setSt b := by
   unfold sendLogonInReplyTo
+  have : logonMsg (s.setSt b) r = logonMsg s r := rfl
+  rw [this, c_dropAndSend]
+
+theorem c_sendLogonRe (b : SState) (s : Sess) (r : Bool) (m : InMsg) :
+    sendLogonRe (s.setSt b) r m = (sendLogonRe s r m).setSt b := by
+  unfold sendLogonRe
   have : logonMsg (s.setSt b) r = logonMsg s r := rfl
   rw [this, c_dropAndSend]
 
@@ -245,8 +258,8 @@ theorem c_resendLoop (b : SState) (s : Sess) (x y : Int) (l : List (Int × OutMs
       · exact ih s x (n + 1) h
       · have hr := rrK_resent m hk
         split
-        · have h1 : Same b (enqueueAndSend s (gapFill x n)) := h.of_Q (q_enqueueAndSend s _)
-          rw [c_enqueueAndSend b s _ h, c_enqueueAndSend b _ _ h1]
+        · have h1 : Same b (enqueueAndSend s (gapFillR s x n)) := h.of_Q (q_enqueueAndSend s _)
+          rw [gapFillR_setSt, c_enqueueAndSend b s _ h, c_enqueueAndSend b _ _ h1]
           exact ih _ _ _ (h1.of_Q (q_enqueueAndSend _ _))
         · rw [c_enqueueAndSend b s _ h]
           exact ih _ _ _ (h.of_Q (q_enqueueAndSend _ _))
@@ -283,13 +296,13 @@ theorem c_handleLogout (b : SState) (s : Sess) (m : InMsg) (h : Same b s) :
   | some r => exact c_processReject b s' m r h'
   | none =>
     simp only [mapSt, setSt_st, h'.lo]
-    have e1 : (if s'.st.loggedOn = true then sendInReplyTo (s'.setSt b) (mkOut "5" []) else s'.setSt b)
-        = (if s'.st.loggedOn = true then sendInReplyTo s' (mkOut "5" []) else s').setSt b := by
+    have e1 : (if s'.st.loggedOn = true then sendInReplyTo (s'.setSt b) ((mkOut "5" []).inReplyTo m) else s'.setSt b)
+        = (if s'.st.loggedOn = true then sendInReplyTo s' ((mkOut "5" []).inReplyTo m) else s').setSt b := by
       split
       · exact c_sendInReplyTo b s' _ h'
       · rfl
     rw [e1]
-    generalize (if s'.st.loggedOn = true then sendInReplyTo s' (mkOut "5" []) else s') = s2
+    generalize (if s'.st.loggedOn = true then sendInReplyTo s' ((mkOut "5" []).inReplyTo m) else s') = s2
     have c1 : checkTooLow (s2.setSt b) m = checkTooLow s2 m := rfl
     have c2 : checkTooHigh (s2.setSt b) m = checkTooHigh s2 m := rfl
     rw [c1, c2, setSt_cfg]
@@ -384,7 +397,9 @@ theorem c_handleResendRequest (b : SState) (s : Sess) (m : InMsg) (h : Same b s)
       | missing => rfl
       | garbled => rfl
       | val y =>
-        simp only [c_resendMessages b s' _ _ h', c_rrTail, mapSt]
+        have hrl : (s'.setSt b).setReplyLast (replyLastOf (s'.setSt b) m) = (s'.setReplyLast (replyLastOf s' m)).setSt b := rfl
+        have h'' : Same b (s'.setReplyLast (replyLastOf s' m)) := h'.of_Q (Q.of_eq rfl rfl rfl rfl rfl rfl rfl)
+        simp only [hrl, c_resendMessages b _ _ _ h'', c_rrTail, mapSt]
         rfl
 
 theorem c_logonReply (b : SState) (s : Sess) (m : InMsg) (flag : Bool) :
@@ -392,7 +407,7 @@ theorem c_logonReply (b : SState) (s : Sess) (m : InMsg) (flag : Bool) :
   unfold logonReply
   reads
   by_cases h1 : s.cfg.initiator = true <;> simp only [h1, ↓reduceIte, Bool.false_eq_true, Bool.not_true, Bool.not_false]
-  rw [← c_sendLogonInReplyTo]
+  rw [← c_sendLogonRe]
   congr 1
   by_cases h2 : s.cfg.hbOverride = true <;> simp only [h2, ↓reduceIte, Bool.false_eq_true, Bool.not_true, Bool.not_false]
   cases getInt m 108 <;> rfl
@@ -473,7 +488,7 @@ theorem c_inSessionFixMsgIn (b : SState) (s : Sess) (m : InMsg) (h : Same b s) :
     obtain ⟨s', o⟩ := r
     simp only [] at hq
     cases o with
-    | some e => simp only [mapSt, c_initiateLogout b s' (h.of_Q hq)]
+    | some e => simp only [mapSt, c_sendInReplyTo b s' _ (h.of_Q hq)]
     | none => rfl
   · split
     · exact c_handleLogout b s m h
@@ -744,7 +759,7 @@ theorem hb_persistOut (s : Sess) (q : Int) (m : OutMsg) : (s.persistOut q m).hb 
 theorem hb_sendQueued (s : Sess) : (sendQueued s).hb = s.hb := by
   unfold sendQueued; split <;> rfl
 theorem hb_prep (s : Sess) (m : OutMsg) : (prep s m).2.hb = s.hb := by
-  unfold prep
+  unfold prep prepCore
   simp only []
   repeat' split
   all_goals first | rfl | exact hb_persistOut _ _ _
@@ -781,7 +796,7 @@ def hbAfterLogon (s : Sess) (m : InMsg) : Int :=
   else match getInt m 108 with | .val h => h | _ => s.hb
 
 theorem hb_logonReply (s : Sess) (m : InMsg) (flag : Bool) : (logonReply s m flag).hb = hbAfterLogon s m := by
-  unfold logonReply hbAfterLogon sendLogonInReplyTo
+  unfold logonReply hbAfterLogon sendLogonRe
   by_cases hi : s.cfg.initiator = true
   · simp [hi]
   · by_cases ho : s.cfg.hbOverride = true
